@@ -127,6 +127,17 @@ func (db *DB) Merge() error {
 			return err
 		}
 	}
+	// 重写后的文件数量可能少于参与 merge 的文件数量, 为剩余的文件 id 创建空文件,
+	// 使参与 merge 的每个文件 id 均有对应的替换文件, 加载时只需逐个替换, 可安全重试
+	for fileID := mergeDB.activeFile.ID + 1; fileID < nonMergeFileId; fileID++ {
+		emptyFile, err := datafile.OpenFile(mergePath, fileID, datafile.DataFileSuffix, db.options.FileIOType)
+		if err != nil {
+			return err
+		}
+		if err := emptyFile.Close(); err != nil {
+			return err
+		}
+	}
 
 	// 在 merge 临时目录创建并打开 merge 完成标识文件
 	mergeFinishedFile, err := datafile.OpenFile(mergePath, 0,
@@ -203,20 +214,12 @@ func (db *DB) loadMergeFiles() (uint32, error) {
 
 	// 处理经过重写的数据文件, 处理中途失败需返回错误
 	for fileID := uint32(0); fileID < mergeID; fileID++ {
-		// 删除原数据文件
 		destName := datafile.GetFileName(db.options.DirPath, fileID, datafile.DataFileSuffix)
-		var exist bool
-		if _, err := os.Stat(destName); err == nil {
-			if err = os.Remove(destName); err != nil {
-				return 0, err
-			}
-			exist = true
-		}
-		// 将重写的数据文件移动到数据目录中
+		// 将重写的数据文件移动到数据目录中, 直接覆盖原数据文件
+		// 重写文件不存在说明上次加载中断前已完成移动, 跳过即可
 		srcFile := datafile.GetFileName(mergePath, fileID, datafile.DataFileSuffix)
 		if _, err := os.Stat(srcFile); err != nil {
-			// 如果原数据文件不存在, 则允许重写文件不存在
-			if !exist && os.IsNotExist(err) {
+			if os.IsNotExist(err) {
 				continue
 			}
 			return 0, err
@@ -226,13 +229,14 @@ func (db *DB) loadMergeFiles() (uint32, error) {
 		}
 	}
 
-	// 移动对应的 hint 文件, 移动失败应当返回错误
+	// 移动对应的 hint 文件, 不存在说明上次加载中断前已完成移动
 	srcHintFile := datafile.GetFileName(mergePath, 0, datafile.HintFileSuffix)
 	destHintFile := datafile.GetFileName(db.options.DirPath, 0, datafile.HintFileSuffix)
-	if _, err := os.Stat(srcHintFile); err != nil {
-		return 0, err
-	}
-	if err := os.Rename(srcHintFile, destHintFile); err != nil {
+	if _, err := os.Stat(srcHintFile); err == nil {
+		if err := os.Rename(srcHintFile, destHintFile); err != nil {
+			return 0, err
+		}
+	} else if !os.IsNotExist(err) {
 		return 0, err
 	}
 
